@@ -94,7 +94,7 @@ func buildShape(name string, n int, salt int) (enc []byte, decode func(src []byt
 			step = wt.Duration((3 << 30) / n) // n x step lies in [2^31, 2^32): beyond the int32 range of Duration
 		}
 		until := wt.Timestamp(uint32(from) + uint32(n)*uint32(step))
-		if salt%3 == 1 && step > 1 {
+		if salt%3 == 1 && step > 1 && uint64(from)+uint64(n)*uint64(step)+uint64(step)/2 <= math.MaxUint32 {
 			// a range that is no multiple of the step (floor(range/step) values): until is a field of its own, not derived
 			until = wt.Timestamp(uint32(until) + uint32(step)/2)
 		}
